@@ -245,7 +245,7 @@ def _entry_sort_key(e):
 
 
 class Session:
-    def __init__(self, workdir, universe=None, reflink=False, exact=False):
+    def __init__(self, workdir, universe=None, reflink=False, exact=False, total=False, layout=False):
         self.dir = workdir
         os.makedirs(workdir, exist_ok=True)
         self.u = universe or Universe()
@@ -256,6 +256,7 @@ class Session:
         self.extdir = None
         self.reflink = reflink
         self.exact = exact
+        self.total = total
         self.handles = {}        # abstract handle id -> (lane flavour, driver handle, info)
         self.nh = 0
         self.prev = None         # last projection (abstract)
@@ -263,6 +264,9 @@ class Session:
         self.ncalls = 0
         self.anomalies = []      # panics / hangs / deaths seen (for C20 attribution)
         self.cwd = {}            # flavour -> working directory its co-process was moved to
+        self.layout = [] if layout else None   # byte-level layout events (TraceLayout.tla)
+        self.prev_inv = None
+        self.layout_quiet = False
         self.new_cache()
 
     # ------------------------------------------------------------ lifecycle
@@ -278,6 +282,7 @@ class Session:
         os.makedirs(self.extdir)
         if self.trace:
             self.trace.append({"ev": "reset"})
+        self.prev_inv = None
         self.prev = self.project()
         return self.root
 
@@ -306,7 +311,7 @@ class Session:
 
     def write_trace(self, path, diag=False):
         hdr = {"ev": "init", "lens": self.u.lens(), "reflink": self.reflink,
-               "exact": self.exact, "diag": diag}
+               "exact": self.exact, "diag": diag, "total": self.total}
         with open(path, "w") as f:
             f.write(json.dumps(hdr) + "\n")
             for e in self.trace:
@@ -321,6 +326,9 @@ class Session:
 
     def project(self):
         inv = R.walk_cache(self.root)
+        if self.layout is not None:
+            self._layout_diff(inv)
+        self.prev_inv = inv
         buckets = []
         for rel in sorted(inv["buckets"]):
             owner = self.u.bucket_owner.get(rel, "?" + rel)
@@ -358,6 +366,64 @@ class Session:
                     ext.append({"id": name, "b": "UNREADABLE"})
         return {"buckets": buckets, "store": store, "ext": ext, "tmp": len(inv["tmp"]),
                 "hasIndex": inv["has_index"], "other": inv["other"]}
+
+    def _layout_diff(self, inv):
+        """what appeared on disk since the last projection, as byte-level facts for TraceLayout"""
+        old = self.prev_inv
+        if old is None or self.layout_quiet:
+            return
+        b = lambda x: list(x if isinstance(x, (bytes, bytearray)) else x.encode())
+        for rel, data in inv["buckets"].items():
+            prev = old["buckets"].get(rel, b"")
+            if data == prev:
+                continue
+            parts = rel.split(os.sep)
+            app = data[len(prev):] if data.startswith(prev) else data
+            tab = app.find(b"\t")
+            sha = app[1:tab] if tab > 0 else b""
+            js = app[tab + 1:] if tab > 0 else b""
+            fields, key = [], None
+            try:
+                pairs = json.loads(js.decode("utf-8"), object_pairs_hook=list)
+                fields = [k for k, _ in pairs]
+                key = dict(pairs).get("key")
+            except Exception:
+                pass
+            self.layout.append({
+                "ev": "frame", "path": [b(x) for x in parts],
+                "key_sha1": b(hashlib.sha1(key.encode("utf-8")).hexdigest()) if isinstance(key, str) else [],
+                "appended": b(app), "json_sha256": b(hashlib.sha256(js).hexdigest()), "json": b(js),
+                "sha_field": b(sha), "fields": fields, "prefix_ok": data.startswith(prev)})
+        for rel, (kind, val) in inv["content"].items():
+            if rel in old["content"]:
+                continue
+            parts = rel.split(os.sep)
+            algo = parts[1]
+            if kind == "file":
+                data = val
+            else:
+                try:
+                    with open(os.path.join(self.root, rel), "rb") as f:
+                        data = f.read()
+                except OSError:
+                    continue
+            if algo == "xxh3":
+                hx = self.u.xxh3_hex(self.u.blob_id_of_bytes(data))
+            elif algo in R.HASHLIB:
+                hx = R.digest_hex(algo, data)
+            else:
+                hx = ""
+            self.layout.append({"ev": "content", "path": [b(x) for x in parts], "algo": algo,
+                                "algo_b": b(algo), "hex": b(hx)})
+        if inv["other"]:
+            self.layout.append({"ev": "other", "n": len(inv["other"]), "paths": inv["other"][:5]})
+
+    def write_layout_trace(self, path):
+        with open(path, "w") as f:
+            f.write(json.dumps({"ev": "init"}) + "\n")
+            for e in self.layout:
+                f.write(json.dumps(e) + "\n")
+        return path
 
     def log_state(self):
         st = self.project()
@@ -887,6 +953,13 @@ class Session:
         return sop, resp, None
 
     # ------------------------------------------------------------ environment events
+    def _quiet_state(self):
+        self.layout_quiet = True
+        try:
+            self.log_state()
+        finally:
+            self.layout_quiet = False
+
     def env_set_ext(self, xid, data):
         p = self.ext_path(xid)
         if data is None:
@@ -900,7 +973,7 @@ class Session:
                 f.write(data)
             b = [self.u.blob_id_of_bytes(data)]
         self.trace.append({"ev": "env", "op": {"op": "env_ext", "id": xid, "b": b}})
-        self.log_state()
+        self._quiet_state()
 
     def content_path(self, algo, blob_id):
         if algo == "xxh3":
@@ -929,7 +1002,7 @@ class Session:
             c = []
         self.trace.append({"ev": "env", "op": {"op": "env_content",
                                                "addr": {"a": algo, "d": blob_id}, "c": c}})
-        self.log_state()
+        self._quiet_state()
 
     def bucket_path(self, kid):
         return os.path.join(self.root, R.bucket_relpath(self.u.keys[kid]))
@@ -952,7 +1025,7 @@ class Session:
                 ls.append({"t": "rec", "r": self.u.entry_abs(pl[1])} if pl[0] == "rec" else {"t": pl[0]})
             lines = [ls]
         self.trace.append({"ev": "env", "op": {"op": "env_bucket", "key": kid, "lines": lines}})
-        self.log_state()
+        self._quiet_state()
 
 
 # ---------------------------------------------------------------------------------------
@@ -1043,6 +1116,34 @@ def run_program(sess, prog, on_step=None):
         if op == "new_cache":
             sess.new_cache()
             alias = {}
+            results.append(None)
+            continue
+        if op == "env_raw":
+            # states outside the abstract model (only used in totality mode, see TraceAPI)
+            act = st["action"]
+            if act == "bucket_dir":
+                bp = sess.bucket_path(st["key"])
+                if os.path.isfile(bp):
+                    os.unlink(bp)
+                os.makedirs(bp, exist_ok=True)
+            elif act == "content_dir":
+                cp = sess.content_path(st["algo"], st["blob"])
+                if os.path.isfile(cp) or os.path.islink(cp):
+                    os.unlink(cp)
+                os.makedirs(cp, exist_ok=True)
+            elif act in ("tmp_file", "index_file", "content_file"):
+                name = {"tmp_file": "tmp", "index_file": "index-v5", "content_file": "content-v2"}[act]
+                tp = os.path.join(sess.root, name)
+                shutil.rmtree(tp, ignore_errors=True)
+                with open(tp, "wb") as f:
+                    f.write(b"not a directory")
+            elif act == "root_gone":
+                shutil.rmtree(sess.root, ignore_errors=True)
+            elif act == "bucket_fifo_like_empty":
+                bp = sess.bucket_path(st["key"])
+                os.makedirs(os.path.dirname(bp), exist_ok=True)
+                open(bp, "wb").close()
+            sess.trace.append({"ev": "env", "op": {"op": "env_raw", "action": act}})
             results.append(None)
             continue
         if op == "chdir":
